@@ -174,10 +174,16 @@ Outcome run_one(const Target &t, const uint8_t *d, size_t n);
 
 void stats_set_paths(const std::string &stats_path, const std::string &crash_replay_path);
 void stats_write();
+// free-form additions to the stats file: key -> list of JSON fragments (merged into evidence)
+void extra_add(const std::string &key, const std::string &json_fragment);
 void set_property(const std::string &id);
 const std::string &property();
 void set_excluded(const std::string &comma_list);
 void install_death_hooks();
+std::string &failures_dir();
+// a failure after which the process cannot continue (deadlock / livelock detected by the
+// scheduler): saves the current case as a replay, flushes the counters and exits
+[[noreturn]] void fatal_failure(const std::string &msg);
 
 std::string hex_encode(const uint8_t *d, size_t n);
 std::vector<uint8_t> hex_decode(const std::string &s);
